@@ -160,7 +160,9 @@ def _scen_arc(w):
     ext = [{"gcode": "M204", "mode": "merge", "description": ""}]
     inch = w.flag("live-in-inches")
     w.cover("live-inch" if inch else "live-mm")
-    spec = pl.fresh_region(w, "rect", "r0")
+    kind = "rect" if w.choose(2, "rkind") == 0 else "disc"
+    w.cover("region-" + kind)
+    spec = pl.fresh_region(w, kind, "r0")
     plugins = []
     for tag in ("L", "T"):
         plugin = pu.make_plugin(w, extended=ext)
@@ -230,8 +232,8 @@ def plan(tier):
     return [Scenario("file", scen, params={"nlines": n, "quick": q}, cover=cov, bounds={"lines": n, "line templates": len(LINES),
                                                                           "decorations": 4, "eol styles": 2}),
             Scenario("arc-file", scen_arc, params={},
-                     cover=["live-inch", "live-mm", "arc-0", "arc-1", "arc-2", "arc-3", "arc-forwarded", "arc-excluded",
+                     cover=["live-inch", "live-mm", "region-rect", "region-disc", "arc-0", "arc-1", "arc-2", "arc-3", "arc-forwarded", "arc-excluded",
                             "follow-forwarded", "follow-excluded", "follow-rewritten"],
                      bounds={"lines": 2, "arc": "one of %d concrete arcs through the real planArc, then one G1 with "
-                                                "symbolic numbers" % len(ARC_LINES), "regions": "1 symbolic rectangle",
+                                                "symbolic numbers" % len(ARC_LINES), "regions": "1 symbolic rectangle or disc",
                              "live prefix": "G28, optionally G20, through the live hooks"})]
